@@ -472,8 +472,7 @@ func tb4Tags(p *core.Prog, rep *core.Report) {
 		if !ok || (bo.Op != token.NEQ && bo.Op != token.EQL) {
 			continue
 		}
-		_, isParam := bo.Y.(*ssa.Parameter)
-		f, _ := core.LoadedField(bo.X)
+		f, isParam := tagCompare(bo)
 		if !isParam || f == nil || !isByte(f.Type()) {
 			continue
 		}
@@ -504,8 +503,7 @@ func tb4Tags(p *core.Prog, rep *core.Report) {
 		if !ok || (bo.Op != token.NEQ && bo.Op != token.EQL) {
 			continue
 		}
-		_, isParam := bo.Y.(*ssa.Parameter)
-		f, _ := core.LoadedField(bo.X)
+		f, isParam := tagCompare(bo)
 		if isParam && f != nil && isByte(f.Type()) {
 			tagIf, tagField = iff, f
 		}
@@ -1017,4 +1015,17 @@ func fieldOwnerStruct(f *types.Var) *types.Struct {
 		}
 	}
 	return fieldOwnerCache[f]
+}
+
+// tagCompare recognises `stored.field ==/!= parameter` in either operand order.
+func tagCompare(bo *ssa.BinOp) (*types.Var, bool) {
+	if _, ok := bo.Y.(*ssa.Parameter); ok {
+		f, _ := core.LoadedField(bo.X)
+		return f, true
+	}
+	if _, ok := bo.X.(*ssa.Parameter); ok {
+		f, _ := core.LoadedField(bo.Y)
+		return f, true
+	}
+	return nil, false
 }
